@@ -6,33 +6,38 @@ open Aggkit.ReorgSync
 structure W where
   s : Sys := {}
   created : List Nat := []   -- how often block i+1 has been created so far
+  names : List Nat := [0]    -- names[g] = the per-number version of the block whose (globally fresh) model version is g
 
-def blkStr (b : Blk) : String := s!"{b.1}.{b.2}"
-def lst (l : List Blk) : String := if l.isEmpty then "-" else ",".intercalate (l.map blkStr)
+def blkStr (names : List Nat) (b : Blk) : String := s!"{b.1}.{names.getD b.2 0}"
+def lst (names : List Nat) (l : List Blk) : String := if l.isEmpty then "-" else ",".intercalate (l.map (blkStr names))
 
 def outStr : DetectOut → String
   | .none => "-"
   | .rewind n => toString n
   | .err => "-"
 
-def subStr (id : String) (s : Sub) : String := s!"store{id}={lst s.store} tracked{id}={lst s.tracked}"
+def subStr (names : List Nat) (id : String) (s : Sub) : String := s!"store{id}={lst names s.store} tracked{id}={lst names s.tracked}"
 
 def detectOut (w : W) : W × String :=
   let ra := detectSub w.s.chain w.s.fin w.s.a
   let rb := detectSub w.s.chain w.s.fin w.s.b
   let err := ra.2 == .err || rb.2 == .err
   let s := { w.s with a := ra.1, b := rb.1 }
-  ({ w with s := s }, "detect" ++ (if err then " err" else "") ++ s!" A:{outStr ra.2} {subStr "A" ra.1} B:{outStr rb.2} {subStr "B" rb.1}")
+  ({ w with s := s }, "detect" ++ (if err then " err" else "") ++ s!" A:{outStr ra.2} {subStr w.names "A" ra.1} B:{outStr rb.2} {subStr w.names "B" rb.1}")
 
 def step (w : W) (ws : List String) : W × String :=
   match ws with
   | ["new"] => ({}, "ok")
   | ["race"] => (w, "race done")     -- directed schedule for known finding F5 (monitor only)
-  | ["blk", _] =>
+  | ["blk", e] =>
     let n := w.s.chain.length            -- index of the new block
     let c := (w.created.getD n 0) + 1
     let created := if n < w.created.length then w.created.set n c else w.created ++ [c]
-    ({ s := Aggkit.ReorgSync.step w.s (.blk c), created := created }, "ok")
+    if e = "q" then                      -- a block without events: never delivered (version 0)
+      ({ w with s := Aggkit.ReorgSync.step w.s (.blk 0), created := created }, "ok")
+    else
+      let g := w.names.length            -- fresh version
+      ({ s := Aggkit.ReorgSync.step w.s (.blk g), created := created, names := w.names ++ [c] }, "ok")
   | ["reorg", k] => match k.toNat? with
     | some k => ({ w with s := Aggkit.ReorgSync.step w.s (.reorg k) }, "ok")
     | none => (w, "bad-op")
@@ -43,10 +48,10 @@ def step (w : W) (ws : List String) : W × String :=
     | some n =>
       if id = "A" then
         let s := Aggkit.ReorgSync.step w.s (.stepA n)
-        ({ w with s := s }, s!"store={lst s.a.store} tracked={lst s.a.tracked}")
+        ({ w with s := s }, s!"store={lst w.names s.a.store} tracked={lst w.names s.a.tracked}")
       else
         let s := Aggkit.ReorgSync.step w.s (.stepB n)
-        ({ w with s := s }, s!"store={lst s.b.store} tracked={lst s.b.tracked}")
+        ({ w with s := s }, s!"store={lst w.names s.b.store} tracked={lst w.names s.b.tracked}")
     | none => (w, "bad-op")
   -- `step!`: the first attempt(s) at the next block meet a transient storage error; `handleNewBlock` retries until the block
   -- is stored, so the outcome is that of `step`
@@ -54,25 +59,25 @@ def step (w : W) (ws : List String) : W × String :=
     | some n =>
       if id = "A" then
         let s := Aggkit.ReorgSync.step w.s (.stepA n)
-        ({ w with s := s }, s!"store={lst s.a.store} tracked={lst s.a.tracked}")
+        ({ w with s := s }, s!"store={lst w.names s.a.store} tracked={lst w.names s.a.tracked}")
       else
         let s := Aggkit.ReorgSync.step w.s (.stepB n)
-        ({ w with s := s }, s!"store={lst s.b.store} tracked={lst s.b.tracked}")
+        ({ w with s := s }, s!"store={lst w.names s.b.store} tracked={lst w.names s.b.tracked}")
     | none => (w, "bad-op")
   | ["detect"] => detectOut w
   | ["detect!"] =>
     let s := Aggkit.ReorgSync.step w.s .detectCrash
-    ({ w with s := s }, s!"crashed {subStr "A" s.a} {subStr "B" s.b}")
-  | ["restart"] => (w, s!"up {subStr "A" w.s.a} {subStr "B" w.s.b}")
+    ({ w with s := s }, s!"crashed {subStr w.names "A" s.a} {subStr w.names "B" s.b}")
+  | ["restart"] => (w, s!"up {subStr w.names "A" w.s.a} {subStr w.names "B" w.s.b}")
   -- restart with the first read(s) of the last-processed marker failing: the driver retries the read (Sync's loop)
-  | ["restart!"] => (w, s!"up {subStr "A" w.s.a} {subStr "B" w.s.b}")
+  | ["restart!"] => (w, s!"up {subStr w.names "A" w.s.a} {subStr w.names "B" w.s.b}")
   | ["end"] =>
     let round (s : Sys) : Sys :=
       let s := Aggkit.ReorgSync.step s .detect
       let s := Aggkit.ReorgSync.step s (.stepA (s.chain.length + 1))
       Aggkit.ReorgSync.step s (.stepB (s.chain.length + 1))
     let s := round (round (round (round w.s)))
-    ({ w with s := s }, s!"end storeA={lst s.a.store} storeB={lst s.b.store}")
+    ({ w with s := s }, s!"end storeA={lst w.names s.a.store} storeB={lst w.names s.b.store}")
   | _ => (w, "bad-op")
 
 end Driver.ReorgSync
